@@ -22,7 +22,7 @@ Supported subset — nothing more:
   * the search idiom `for m in reversed(self._mutations): if <cond m>: return <expr m>` followed by `return <bool>`;
   * console prints, docstrings and `if …: print(…)` blocks are dropped.
 `replicate`: the keyword arguments `allow_mutations` / `on_mutation` / `mutation_rate` / `genes` of the `Genome(...)`
-constructor call, the loop `for a, b in mutations.items(): child.mutate(a, b, "replication_mutation")`, and a scan that
+constructor call (any other argument but `silent` leaves the subset), the loop `for a, b in mutations.items(): child.mutate(a, b, "replication_mutation")`, and a scan that
 the method writes nothing but locals, `child._generation`, `child._parent_hash`, `child._expression[...]`, and calls
 nothing on the child but `mutate` and on self but `get_hash` (the random pass's arithmetic is outside the subset; that
 it goes through `child.mutate(…, "random_mutation")` is part of the scan).
@@ -462,6 +462,9 @@ class Translator:
         if ctor.args:
             bad(ctor, "positional arguments of Genome(...)")
         kw = {k.arg: k.value for k in ctor.keywords}
+        for key in kw:
+            if key not in ("genes", "allow_mutations", "mutation_rate", "on_mutation", "silent"):
+                bad(ctor, f"child constructed with an unknown argument {key}=")
         gate = []
         for key, lean in (("allow_mutations", "g.allow"), ("on_mutation", "g.cb"), ("mutation_rate", "g.rate")):
             v = kw.get(key)
